@@ -1,7 +1,7 @@
 #!/bin/sh
 # usage: tools/confirm_mutant.sh <ID> <N>   (worktree /tmp/mut/<ID>, mutant dir /tmp/mut/<ID>-out/mutant<N>)
 # Confirms: patch applies+compiles, existing suite passes with it, demo fails with it and passes without.
-ID=$1; N=$2; W=/tmp/mut/$ID; M=/tmp/mut/$ID-out/mutant$N
+ID=$1; N=$2; B=${MUT_BASE:-/tmp/mut}; W=$B/$ID; M=$B/$ID-out/mutant$N
 export CARGO_NET_OFFLINE=true CARGO_TARGET_DIR=$W/target
 cd $W || exit 2
 git checkout -q -- . ; git clean -fdq -e target
